@@ -18,7 +18,8 @@ def toBytesAscii (s : String) : Except Err Bytes :=
 def jsonB64Decode (P : Prims) (seg : Bytes) : Except Err JVal := do
   let raw ← b64d seg
   let v ← P.jsonLoads raw
-  if v.isDict then pure v else throw .valueError
+  ensure v.isDict .valueError
+  pure v
 
 /-- `json_b64encode(header_dict)`. -/
 def jsonB64Encode (P : Prims) (h : JVal) : Except Err Bytes :=
@@ -84,12 +85,12 @@ def guessKey (P : Prims) (E : Env) (K : KeyEnv) (arg : KeyArg) (headers : JVal) 
         | .str s => pure (pickCandidates E.algKeys ks s)
         | .arr _ | .obj _ => throw .typeError
         | _ => pure ks
-      if cands.isEmpty then throw .valueError   -- `pick_random_key` returned None: "Invalid key"
+      ensure (!cands.isEmpty) .valueError   -- `pick_random_key` returned None: "Invalid key"
       match cands[(← P.choice cands.length) % cands.length]? with
       | none => throw .valueError
       | some k =>
         let k' ← ensureKid P K k
-        if k'.kid.isNone then throw .assertionError
+        ensure (!k'.kid.isNone) .assertionError
         pure (k', some k'.kid)
     else do pure (← getByKid ks kid, none)
 
@@ -107,7 +108,7 @@ structure CompactObj where
 def decodeHeader (P : Prims) (seg : Bytes) : Except Err JVal :=
   tryCatchCls (do
       let v ← jsonB64Decode P seg
-      if !(← pyInStr "alg" v) then throw .missingAlgorithm
+      ensure (← pyInStr "alg" v) .missingAlgorithm
       pure v)
     isTypeOrValueError (fun _ => .error .decodeError)
 
@@ -136,7 +137,7 @@ def validateCompact (P : Prims) (E : Env) (K : KeyEnv) (reg : JwsRegistry) (obj 
 def deserializeCompact (P : Prims) (E : Env) (K : KeyEnv) (reg : JwsRegistry) (value : Bytes) (key : KeyArg) :
     Except Err CompactObj := do
   let obj ← extractCompact P value
-  if !(← validateCompact P E K reg obj key) then throw .badSignature
+  ensure (← validateCompact P E K reg obj key) .badSignature
   pure obj
 
 /-- `jws.serialize_compact`: the token and the (possibly kid-extended) prot header. -/
@@ -232,8 +233,8 @@ def deserializeGeneral (P : Prims) (E : Env) (K : KeyEnv) (reg : JwsRegistry) (v
     Except Err JsonObj := do
   let payload ← extractPayload v.payload
   let members ← v.signatures.mapM (signatureToMember P)
-  if v.signatures.isEmpty then throw .badSignature
-  if !(← verifyAll P E K reg (strBytes v.payload) key (members.zip v.signatures)) then throw .badSignature
+  ensure (!v.signatures.isEmpty) .badSignature
+  ensure (← verifyAll P E K reg (strBytes v.payload) key (members.zip v.signatures)) .badSignature
   pure { payload, members }
 
 /-- `jws.deserialize_json` on a flattened serialization. -/
@@ -241,7 +242,7 @@ def deserializeFlat (P : Prims) (E : Env) (K : KeyEnv) (reg : JwsRegistry) (v : 
     Except Err JsonObj := do
   let payload ← extractPayload v.payload
   let m ← signatureToMember P v.sig
-  if !(← verifySignature P E K reg m v.sig (strBytes v.payload) key) then throw .badSignature
+  ensure (← verifySignature P E K reg m v.sig (strBytes v.payload) key) .badSignature
   pure { payload, members := [m] }
 
 /-- `__sign_member`: the signature entry (with the header the kid was written into). -/
